@@ -566,6 +566,17 @@ def _present_keys(explainable: Explainable, options: Options) -> Set[str]:
             # A coalesce that could not be evaluated failed in EVERY member, so it
             # depends on all of them (its own explain() only describes the last one)
             return set().union(*(member.explain(request.options) for member in members))
+        cases = getattr(request.explainable, "cases", None)
+        subject = getattr(request.explainable, "dispatch", None)
+        if isinstance(cases, list) and isinstance(subject, Explainable):
+            # A case-when may have failed in its subject or in any of its conditions
+            keys = subject.explain(request.options)
+            for condition, _ in cases:
+                keys = keys | condition.explain(request.options)
+            try:
+                return keys | outer.run(request)
+            except EvaluationError:
+                return keys
         try:
             return outer.run(request)
         except InsufficientInformationError as e:
@@ -582,7 +593,10 @@ def _present_keys(explainable: Explainable, options: Options) -> Set[str]:
         # Unknown: anything present may have contributed to the failure.
         return set(options.keys())
 
-    return {key for key in keys if _is_present(key, options)}
+    present = {key for key in keys if _is_present(key, options)}
+    # A plain value where the key needs a section made the object fail as well
+    blocking = {_blocking_prefix(key, options) for key in keys - present}
+    return present | {prefix for prefix in blocking if prefix is not None}
 
 
 def _is_present(key: str, options: Options) -> bool:
@@ -591,6 +605,18 @@ def _is_present(key: str, options: Options) -> bool:
     except TypeError:
         # A non-section value sits at a prefix of the key
         return False
+
+
+def _blocking_prefix(key: str, options: Options) -> Optional[str]:
+    """The prefix of the key at which a non-section value stands in the way, if any."""
+    parts = key.split(".")
+    for i in range(1, len(parts)):
+        prefix = ".".join(parts[:i])
+        if not _is_present(prefix, options):
+            return None
+        if not isinstance(get_dotted_key(prefix, options), (Mapping, list)):
+            return prefix
+    return None
 
 
 class EvaluateRequest(Request[A]):
